@@ -916,7 +916,15 @@ class Interp:
         raise Unsupported("starred expression")
 
     def ev_Lambda(self, e, fr):
-        raise Unsupported("lambda")
+        # a lambda is a nested function whose body is one return statement (closure over the enclosing frame)
+        node = ast.FunctionDef(name="<lambda>", args=e.args, body=[ast.Return(value=e.body)], decorator_list=[],
+                               returns=None, type_comment=None)
+        ast.copy_location(node, e)
+        ast.copy_location(node.body[0], e)
+        info = FuncInfo(fr.module, f"{fr.func.qualname if fr.func else '<harness>'}.<locals>.<lambda>", node)
+        f = PFunc(info)
+        f.closure = fr
+        return f
 
     def ev_ListComp(self, e, fr):
         out = []
